@@ -220,8 +220,15 @@ def check_sign(case):
     exp, _, odd_r = ref.sign_info(d, msg, aux)
     cls.append("nt:odd-y-nonce" if odd_r else "even-y-nonce")
     ctx = ("oddP" if odd_p else "evenP") + "-" + ("oddR" if odd_r else "evenR")
-    got = attempt(lib.sign, kb, msg, aux)
-    lpk = attempt(lib.pubkey, pt)
+    if case.get("pubkey_first"):
+        # call order is part of the input: the x-only key is asked for (with the point as it is, odd y included) before
+        # the key is first used for signing
+        cls.append("nt:pubkey-before-sign")
+        lpk = attempt(lib.pubkey, pt)
+        got = attempt(lib.sign, kb, msg, aux)
+    else:
+        got = attempt(lib.sign, kb, msg, aux)
+        lpk = attempt(lib.pubkey, pt)
     f.expect(not raised(lpk) and lpk == pk, "pubkey/ne-reference", f"{lpk!r} want {pk.hex()}")
     if not f.expect(not raised(got), f"sign/raises-valid-key/{ctx}", f"{got!r}"):
         return cls, f
@@ -271,6 +278,7 @@ def sign_cases(draw):
     if kind == "sign":
         d = draw(keys())
         case = {"kind": kind, "key": hx(ref.b32(d)), "msg": hx(msg), "aux": hx(draw(auxes()))}
+        case["pubkey_first"] = draw(st.booleans())
         mode = draw(st.sampled_from([None] * 12 + ["t", "t", "rand", "rand", "Rx", "Rx", "e", "s"]))
         if mode:
             case["search"] = mode
@@ -359,6 +367,14 @@ def check_verify(case):
         g0 = attempt(lib.verify, bx(base["pk"]), bx(base["msg"]), bx(base["sig"]))
         if ref.verdict(bx(base["pk"]), bx(base["msg"]), bx(base["sig"]))[0]:
             f.expect(_accepted(g0), "verify/rejects-valid/base-triple", f"{g0!r}")
+    if case.get("prime_pub") and len(pk) == 32:
+        # history: the x-only form of BOTH points with this x coordinate is computed first (bip340.pubkey takes a point)
+        P0 = ref.lift_x(int.from_bytes(pk, "big")) if int.from_bytes(pk, "big") < P else None
+        if P0 is not None:
+            cls.append("nt:after-pubkey-of-both-lifts")
+            for pt_ in ((P0[0], P - P0[1]), P0):
+                x_only = attempt(lib.pubkey, pt_)
+                f.expect(not raised(x_only) and x_only == pk, "pubkey/ne-reference", f"{x_only!r} want {pk.hex()}")
     got = attempt(lib.verify, pk, msg, sig)
     acc = _accepted(got)
     if want:
@@ -600,7 +616,7 @@ def verify_cases(draw):
             pk, sig = b"\x00" + pk, sig[:32] + b"\x00" + sig[32:]
         else:
             pk, sig = pk[1:], sig[:32] + b"\x00" + sig[32:]
-    return {"kind": kind, "mut": mut, "pk": hx(pk), "msg": hx(msg), "sig": hx(sig), "base": base, "prime": draw(st.booleans()) or kind == "resplit"}
+    return {"kind": kind, "mut": mut, "pk": hx(pk), "msg": hx(msg), "sig": hx(sig), "base": base, "prime": draw(st.booleans()) or kind == "resplit", "prime_pub": draw(st.integers(0, 3)) == 0}
 
 
 # ---------------------------------------------------------------- deterministic boundary enumeration
@@ -675,7 +691,7 @@ def targets(tier):
             strategy=lambda tier: sign_cases(),
             budget={"quick": 400, "thorough": 8000},
             required=[
-                "nt:odd-y-key", "even-y-key", "nt:odd-y-nonce", "even-y-nonce", "nt:aux-omitted", "aux-zeros", "aux-ones", "nt:lead0-t", "nt:lead0-rand", "nt:lead0-Rx", "nt:lead0-e", "nt:lead0-s",
+                "nt:odd-y-key", "even-y-key", "nt:odd-y-nonce", "even-y-nonce", "nt:aux-omitted", "aux-zeros", "aux-ones", "nt:pubkey-before-sign", "nt:lead0-t", "nt:lead0-rand", "nt:lead0-Rx", "nt:lead0-e", "nt:lead0-s",
                 "aux-random", "nt:refuse-key-zero", "nt:refuse-key-ge-n", "nt:refuse-key-len-ne-32", "nt:msg-len-0",
                 "msg-len-32", "nt:msg-len-gt-32", "nt:msg-len-lt-32", "nt:key-leading-zero",
             ],
